@@ -693,6 +693,10 @@ class An:
                     s.even=getattr(s,'even',set())|{symn}
                 if (not truth) and symn is not None and what=='is_zero':
                     s.nonzero=set(getattr(s,'nonzero',()))|{symn}
+                if symn is not None and what in('is_negative','is_positive'):
+                    sg={('is_negative',True):'neg',('is_negative',False):'nonneg',('is_positive',True):'pos'}.get((what,truth))
+                    if sg:
+                        signs=dict(getattr(s,'signs',{})); signs[symn]=sg; s.signs=signs
                 if truth and symn is not None:
                     if what=='is_zero': s.subst[symn]=0
                     elif what=='is_one': s.subst[symn]=1
@@ -1087,6 +1091,9 @@ class An:
             x=args[0]
             if isinstance(x,Rec): v=('test','is_zero',getattr(x,'symname',None) if x.val is None or self.single_sym(x.val) or (x.sign is not None) else None,0)
             elif isinstance(x,IntV): v=('test','is_zero',self.single_sym(x.val),0)
+        elif re.search(r'Signed::is_(negative|positive)$',d) and args and isinstance(args[0],(Rec,IntV)) and self.single_sym(self.recval(s,args[0]) if isinstance(args[0],Rec) else args[0].val):
+            # the sign of a big integer asked for directly instead of through `sign()`
+            v=('test','is_negative' if d.endswith('is_negative') else 'is_positive',self.single_sym(self.recval(s,args[0]) if isinstance(args[0],Rec) else args[0].val),0)
         elif re.search(r'One::is_one$',d):
             x=args[0]
             if isinstance(x,Rec): v=('test','is_one',self.single_sym(self.recval(s,x)) if isinstance(self.recval(s,x),dict) else None,1)
